@@ -126,10 +126,11 @@ def run_case(case, acc, order):
                                     cl_arg = [list(clist), np.array(clist, dtype=np.int64),
                                               tuple(clist)][opi % 3]     # the id list in any container
                                     skw = {}
-                                    if sub_chunks:
-                                        skw['subset_chunks'] = True           # False is the default
-                                    if subset is not None:
-                                        skw['subset_spikes'] = np.array(subset, dtype=np.int64)
+                                    if sub_chunks or opi % 2:
+                                        skw['subset_chunks'] = sub_chunks     # False is the default
+                                    if subset is not None or opi % 2:
+                                        skw['subset_spikes'] = None if subset is None else \
+                                            np.array(subset, dtype=np.int64)
                                     r = sel(count, cl_arg, **skw)
                                 except Exception as e:
                                     r = e
